@@ -44,6 +44,8 @@ func init() {
 				Edits: []Edit{{File: "channel/auth.go", Old: "c.l.Critical(\"password prompt seen multiple times, assuming authentication failed\")\n\n\t\t\t\treturn &result{\n\t\t\t\t\tnil,\n\t\t\t\t\tfmt.Errorf(\n\t\t\t\t\t\t\"%w: password prompt seen multiple times, assuming authentication failed\",\n\t\t\t\t\t\tutil.ErrAuthError,\n\t\t\t\t\t),\n\t\t\t\t}\n\t\t\t}\n\n\t\t\terr = c.WriteAndReturn(p, true)\n\t\t\tif err != nil {\n\t\t\t\treturn &result{nil, err}\n\t\t\t}\n\n\t\t\t// reset", New: "c.l.Criticalf(\"password prompt seen multiple times, assuming authentication failed (%d bytes: %s)\", len(p), p)\n\n\t\t\t\treturn &result{\n\t\t\t\t\tnil,\n\t\t\t\t\tfmt.Errorf(\n\t\t\t\t\t\t\"%w: password prompt seen multiple times, assuming authentication failed\",\n\t\t\t\t\t\tutil.ErrAuthError,\n\t\t\t\t\t),\n\t\t\t\t}\n\t\t\t}\n\n\t\t\terr = c.WriteAndReturn(p, true)\n\t\t\tif err != nil {\n\t\t\t\treturn &result{nil, err}\n\t\t\t}\n\n\t\t\t// reset"}}},
 			{ID: "C11-escalate-plain-send", Desc: "escalation sends the secret as a plain command (logged by SendInput)", Rule: "C11/T",
 				Edits: []Edit{{File: "driver/network/acquirepriv.go", Old: "_, err = d.Driver.Channel.SendInput(p.Escalate)\n\t} else {", New: "_, err = d.Driver.Channel.SendInput(p.Escalate)\n\t\tif err == nil && p.EscalateAuth {\n\t\t\t_, err = d.Driver.Channel.SendInput(d.AuthSecondary)\n\t\t}\n\t} else {"}}},
+			{ID: "C11-platform-bad-value-echoed", Desc: "a refused platform channel.write step is quoted in the error (which Open logs)", Rule: "C11/T7",
+				Edits: []Edit{{File: "platform/onx.go", Old: "\ti, ok := op[\"input\"].(string)\n\tif !ok {\n\t\treturn fmt.Errorf(\"%w: bad value\", util.ErrBadOption)", New: "\ti, ok := op[\"input\"].(string)\n\tif !ok {\n\t\treturn fmt.Errorf(\"%w: bad value %v\", util.ErrBadOption, op[\"input\"])"}}},
 			{ID: "C11-platform-redacted-ignored", Desc: "platform channel.write ignores the redacted flag", Rule: "C11/T6",
 				Edits: []Edit{{File: "platform/onx.go", Old: "return c.Write([]byte(i), r)", New: "_ = r\n\n\treturn c.Write([]byte(i), false)"}}},
 			{ID: "C11-system-args-password", Desc: "system transport logs an sshpass-style argument list", Rule: "C11/T4",
@@ -142,6 +144,8 @@ func loggingSink(c *Ctx) func(ci ssa.CallInstruction) (string, []int) {
 }
 
 func runC11(c *Ctx, r *Report) {
+	r.Rule("C11/password-prompt-anchored", "the built-in pattern that decides when the login password is typed matches only where the prompt ends a line", 1)
+	checkPasswordPromptAnchored(c, r, "C11/password-prompt-anchored")
 	importFoundation(c, r, "C11", "interactive")
 	r.Rule("C11/auth-reset", "after each credential the login loop starts from an empty buffer: a credential is typed once per prompt shown, never again into a session that echoes", 4)
 	checkAuthBufferReset(c, r, "C11/auth-reset")
@@ -309,6 +313,9 @@ func runC11(c *Ctx, r *Report) {
 			r.OK("C11/T5", "read loop channel log write", c.Pos(readFn.Pos()), "the read loop does not write a channel log")
 		}
 	}
+
+	r.Rule("C11/T7", "the input of a platform step that may be written redacted, and the step's definition map, never reach a logging sink (directly or inside an error that is logged)", 1)
+	checkPlatformStepNotLogged(c, r, "C11/T7", gates, isSink)
 
 	// T6: platform channel.write passes the 'redacted' flag
 	cw := c.LookupFunc("platform", "", "channelWrite")
